@@ -139,6 +139,7 @@ type CheckReport struct {
 	Unconf    []*ConfirmedViolation
 	Known     []*ConfirmedViolation
 	Problems  []string
+	Expected  int
 }
 
 type ConfirmedViolation struct {
@@ -284,6 +285,35 @@ func (rep *CheckReport) finish(o *checkOpts) int {
 	for _, u := range rep.Unconf {
 		inconclusive = append(inconclusive, fmt.Sprintf("%s: unconfirmed counterexample for %q at %s (native replay outcome: %s)", u.V.Harness, u.V.Label, u.V.Pos, u.Outcome))
 	}
+	// must-fail harnesses (translator validation): a reproduced violation is the expected outcome
+	expectViolation := map[string]bool{}
+	for _, g := range rep.Groups {
+		if g.P == nil {
+			continue
+		}
+		for n, hd := range g.P.harness {
+			if hd.Opts["expect"] == "violation" {
+				expectViolation[n] = false
+			}
+		}
+	}
+	var realConfirmed []*ConfirmedViolation
+	for _, c := range rep.Confirmed {
+		if _, ok := expectViolation[c.V.Harness]; ok {
+			expectViolation[c.V.Harness] = true
+			continue
+		}
+		realConfirmed = append(realConfirmed, c)
+	}
+	rep.Expected = len(rep.Confirmed) - len(realConfirmed)
+	rep.Confirmed = realConfirmed
+	for _, g := range rep.Groups {
+		for _, hr := range g.results {
+			if got, ok := expectViolation[hr.Name]; ok && !got {
+				inconclusive = append(inconclusive, hr.Name+": must-fail harness produced no reproduced counterexample (engine defect)")
+			}
+		}
+	}
 	code := 0
 	for _, k := range rep.Known {
 		fmt.Printf("KNOWN-FINDING: property=%s %s\n", rep.Prop, k.KnownID)
@@ -327,6 +357,14 @@ func (rep *CheckReport) printSummary() {
 				triv += ob.Trivial
 				viol += ob.Violated
 				unk += ob.Unknown
+			}
+			if os.Getenv("GOSYM_PROFILE") != "" {
+				for _, k := range sortedKeys(hr.Obls) {
+					ob := hr.Obls[k]
+					if ob.SolverS > 1 {
+						fmt.Printf("    slow obligation %.1fs %s\n", ob.SolverS, k)
+					}
+				}
 			}
 			fmt.Printf("  %-40s paths=%-6d steps=%-9d obligation-sites=%-3d unsat=%-6d trivial=%-6d sat=%-3d unknown=%-3d ends=%v solver=%.1fs wall=%.1fs\n",
 				hr.Name, hr.Paths, hr.Steps, nob, dis, triv, viol, unk, hr.Ends, hr.SolverS, hr.WallS)
@@ -387,7 +425,7 @@ func (rep *CheckReport) writeEvidence(o *checkOpts, inconclusive []string) error
 			assumptions[k] = true
 		}
 	}
-	validated = len(rep.Confirmed) + len(rep.Unconf) + len(rep.Known)
+	validated = len(rep.Confirmed) + len(rep.Unconf) + len(rep.Known) + rep.Expected
 	if states == 0 {
 		states = 1
 	}
